@@ -220,7 +220,8 @@ Lemma match_shortcuts_eq q : match_shortcuts hash psl retr e q =
 Proof. reflexivity. Qed.
 
 (* whatever the storage hands out for an index is a rule of the lists filed under that index *)
-Definition retr_sound : Prop := forall idx f, retr idx = Some f -> In (f, idx) rules.
+Definition retr_sound : Prop :=
+  forall idx f, retr idx = Some f -> (exists f0, In (f0, idx) rules) -> In (f, idx) rules.
 (* the storage is intact: every scanned rule can be retrieved by its index (C11) *)
 Definition retr_complete : Prop := forall f idx, In (f, idx) rules -> retr idx = Some f.
 
@@ -228,15 +229,17 @@ Definition retr_complete : Prop := forall f idx, In (f, idx) rules -> retr idx =
 Theorem match_all_sound q f : retr_sound -> In f (match_all hash psl retr e q) ->
   rmatch psl f q = true /\ In f (map fst rules).
 Proof.
-  intros RS H. unfold match_all in H. apply in_app_or in H as [H|H]; [|apply in_app_or in H as [H|H]].
+  intros RS H. destruct (build_from hash rules) as (F1 & F2 & F3). fold e in F1, F2, F3.
+  unfold match_all in H. apply in_app_or in H as [H|H]; [|apply in_app_or in H as [H|H]].
   - apply in_map_iff in H as ([idx g] & <- & H). cbn [snd]. rewrite match_shortcuts_eq in H.
-    apply w_fold_sound in H as [[]|(_ & R & M)]. cbn [fst snd] in *. split; [exact M|].
-    apply in_map_iff. exists (g, idx). split; [reflexivity | now apply RS].
+    apply w_fold_sound in H as [[]|((w & _ & Hw) & R & M)]. cbn [fst snd] in *. split; [exact M|].
+    apply in_map_iff. exists (g, idx). split; [reflexivity|]. apply RS; [exact R | eauto].
   - unfold match_domains in H. destruct (isnil (rq_source_hostname q)); [destruct H|].
-    apply in_flat_map in H as (d & _ & H). apply in_flat_map in H as (idx & _ & H).
+    apply in_flat_map in H as (d & _ & H). apply in_flat_map in H as (idx & Hb & H).
     destruct (retr idx) as [g|] eqn:R; [|destruct H]. destruct (rmatch psl g q) eqn:M; [|destruct H].
-    destruct H as [<-|[]]. split; [exact M|]. apply in_map_iff. exists (g, idx). split; [reflexivity | now apply RS].
-  - apply filter_In in H as [H M]. split; [exact M|]. destruct (build_from hash rules) as (_ & _ & F3).
+    destruct H as [<-|[]]. split; [exact M|]. apply in_map_iff. exists (g, idx). split; [reflexivity|].
+    apply RS; [exact R|]. apply bucket_in in Hb. eauto.
+  - apply filter_In in H as [H M]. split; [exact M|].
     destruct (F3 _ H) as [idx Hi]. apply in_map_iff. now exists (f, idx).
 Qed.
 
@@ -354,7 +357,7 @@ Theorem engine_equals_scan hash psl retr rules q t :
    exists f, In f (map fst rules) /\ rmatch psl f q = true /\ nr_text f = t).
 Proof.
   intros P HR. apply match_all_texts.
-  - intros idx f H. now apply HR.
+  - intros idx f H _. now apply HR.
   - intros f idx H. now apply HR.
   - intros f idx H. eapply parsed_pdomains_ok; eauto.
   - now apply parsed_text_coherent.
